@@ -42,6 +42,10 @@ Fixpoint eval (fuel : nat) (e : expr) (c : cache) : value * cache :=
   match fuel with
   | O => (VStr [], c)
   | S k =>
+    (* a literal is its own value and is never looked up in the cache (fix c3c8dee) *)
+    match e_val e with
+    | Some x => (VStr (if e_minus e then 45%N :: x else x), c)          (* from_signed_string *)
+    | None =>
     let key := display e in
     match lookup key c with
     | Some x => (VStr x, c)                                   (* Variant::from_string(&file_map[key]) *)
@@ -77,6 +81,7 @@ Fixpoint eval (fuel : nat) (e : expr) (c : cache) : value * cache :=
           end
         end
       end
+    end
     end
   end.
 
